@@ -20,6 +20,14 @@ fn ret_vals(o: usize, r: HResult<Vec<u32>>) {
         Err(er) => e(&[ev::RET as usize, o, ev::R_ERR as usize, ev::err_code(&er) as usize]),
     }
 }
+/// await `fut` for at most `after` ms of virtual time; `None`: gave up, `fut` has been dropped
+async fn give_up<T>(fut: impl std::future::Future<Output = T>, after: u64) -> Option<T> {
+    let fut = std::pin::pin!(fut);
+    match futures::future::select(fut, exec::current().sleep_fut(after)).await {
+        futures::future::Either::Left((r, _)) => Some(r),
+        futures::future::Either::Right(_) => None,
+    }
+}
 fn ret_skip(o: usize) {
     e(&[ev::RET as usize, o, ev::R_SKIP as usize])
 }
@@ -149,6 +157,26 @@ async fn step(c: usize, cop: Cop) {
                 H::Caller(s) => ret_vals(o, s.call(m).await),
                 H::WCaller(s) => ret_vals(o, s.try_call(m).await),
                 _ => ret_skip(o),
+            }
+            put_back(h, ent);
+        }
+        Cop::CallGiveUp { h, script, after } => {
+            let Some(mut ent) = take(h) else { return };
+            let o = op(c, ent.hid, ev::K_CALL);
+            let m = CallM { o, script: Arc::new(script) };
+            // only through an address: that call does not wait for mailbox space
+            let r = match &mut ent.h {
+                H::Addr(any) => Some(on_addr!(any, a => give_up(a.call(m), after).await)),
+                H::Owning(any) => Some(on_owning!(any, a => give_up(a.call(m), after).await)),
+                // any other handle kind: an ordinary call, awaited to the end
+                H::Caller(s) => Some(Some(s.call(m).await)),
+                H::WCaller(s) => Some(Some(s.try_call(m).await)),
+                _ => None,
+            };
+            match r {
+                Some(Some(r)) => ret_vals(o, r),
+                Some(None) => e(&[ev::ABANDON as usize, o]),
+                None => ret_skip(o),
             }
             put_back(h, ent);
         }
